@@ -1,0 +1,48 @@
+//go:build verif
+
+package processor
+
+// C05 lemmas: the numeric comparator is a strict weak order (so that
+// sort.Slice with it yields a sequence in which adjacent results are never
+// out of order, independent of the input order).  Proved from the contract of
+// compareFloat only.
+
+//@ func verifLemmaCompareFloatAntisymmetric
+//@   props C05
+//@   lemma
+//@   requires !isNaN(a) && !isNaN(b)
+//@   ensures result
+//@ end
+
+func verifLemmaCompareFloatAntisymmetric(a, b float64) bool {
+	ab := compareFloat(a, b)
+	ba := compareFloat(b, a)
+	return (ab == LESS) == (ba == GREATER) && (ab == EQUAL) == (ba == EQUAL)
+}
+
+//@ func verifLemmaCompareFloatTransitive
+//@   props C05
+//@   lemma
+//@   requires !isNaN(a) && !isNaN(b) && !isNaN(c)
+//@   ensures result
+//@ end
+
+func verifLemmaCompareFloatTransitive(a, b, c float64) bool {
+	ab := compareFloat(a, b)
+	bc := compareFloat(b, c)
+	ac := compareFloat(a, c)
+	if ab == LESS && bc == LESS && ac != LESS {
+		return false
+	}
+	// transitivity of equivalence (incomparability)
+	if ab == EQUAL && bc == EQUAL && ac != EQUAL {
+		return false
+	}
+	if ab == EQUAL && bc == LESS && ac != LESS {
+		return false
+	}
+	if ab == LESS && bc == EQUAL && ac != LESS {
+		return false
+	}
+	return true
+}
